@@ -14,7 +14,7 @@
 extern "C" {
 #endif
 static uint64_t __verif_rt_state;
-static FILE *__verif_rt_replay;
+static FILE *__verif_rt_replay, *__verif_rt_record;
 static int __verif_rt_inited, __verif_rt_failed;
 static unsigned __verif_rt_yield_den = 4;
 
@@ -23,6 +23,8 @@ static inline void __verif_rt_init(void) {
   __verif_rt_inited = 1;
   const char *r = getenv("VERIF_REPLAY");
   if (r && *r) { __verif_rt_replay = fopen(r, "r"); if (!__verif_rt_replay) { perror(r); exit(3); } }
+  const char *rec = getenv("VERIF_RECORD");
+  if (rec && *rec) { __verif_rt_record = fopen(rec, "w"); if (!__verif_rt_record) { perror(rec); exit(3); } }
   const char *s = getenv("VERIF_SEED");
   __verif_rt_state = 0x9E3779B97F4A7C15ULL ^ (s ? strtoull(s, 0, 0) * 0xBF58476D1CE4E5B9ULL : 0);
   if (!__verif_rt_state) __verif_rt_state = 1;
@@ -39,27 +41,28 @@ static inline int __verif_rt_from_file(uint64_t *v) {
   if (!fgets(buf, sizeof buf, __verif_rt_replay)) { *v = 0; return 1; }
   *v = strtoull(buf, 0, 0); return 1;
 }
+static inline uint64_t __verif_rt_rec(uint64_t v) { if (__verif_rt_record) { fprintf(__verif_rt_record, "%llu\n", (unsigned long long)v); fflush(__verif_rt_record); } return v; }
 static inline void __verif_rt_end(const char *how) { printf("END %s\n", how); fflush(stdout); _Exit(strcmp(how, "fail") == 0 ? 1 : 0); }
 static inline void __verif_rt_pruned(void) { __verif_rt_end(__verif_rt_failed ? "fail" : "pruned"); }
 static inline void __verif_rt_assert_fail(const char *msg) { if (!strncmp(msg, "VERIF-WITNESS", 13)) { printf("WITNESS\n"); return; } printf("ASSERT-FAIL %s\n", msg); __verif_rt_failed = 1; }
 static inline void __verif_rt_observe(uint64_t v) { printf("OBS %llx\n", (unsigned long long)v); }
 static inline uint64_t __verif_rt_nd64(void) {
   uint64_t v; __verif_rt_init();
-  if (__verif_rt_from_file(&v)) return v;
+  if (__verif_rt_from_file(&v)) return __verif_rt_rec(v);
   uint64_t r = __verif_rt_next();
-  switch (r & 3) { case 0: return __verif_rt_next() & 3; case 1: return __verif_rt_next() & 0xff; case 2: return (uint64_t)0 - (__verif_rt_next() & 3); default: return __verif_rt_next(); }
+  switch (r & 3) { case 0: return __verif_rt_rec(__verif_rt_next() & 3); case 1: return __verif_rt_rec(__verif_rt_next() & 0xff); case 2: return __verif_rt_rec((uint64_t)0 - (__verif_rt_next() & 3)); default: return __verif_rt_rec(__verif_rt_next()); }
 }
 static inline uint64_t __verif_rt_range(uint64_t lo, uint64_t hi) {
   uint64_t v; __verif_rt_init();
-  if (__verif_rt_from_file(&v)) { if (!(lo <= v && v <= hi)) __verif_rt_pruned(); return v; }
+  if (__verif_rt_from_file(&v)) { if (!(lo <= v && v <= hi)) __verif_rt_pruned(); return __verif_rt_rec(v); }
   if (hi < lo) __verif_rt_pruned();
-  if (hi - lo == UINT64_MAX) return __verif_rt_next();
-  return lo + __verif_rt_next() % (hi - lo + 1);
+  if (hi - lo == UINT64_MAX) return __verif_rt_rec(__verif_rt_next());
+  return __verif_rt_rec(lo + __verif_rt_next() % (hi - lo + 1));
 }
 static inline int __verif_rt_yield(void) {
   uint64_t v; __verif_rt_init();
-  if (__verif_rt_from_file(&v)) return (int)(v & 1);
-  return __verif_rt_yield_den ? (__verif_rt_next() % __verif_rt_yield_den) == 0 : 0;
+  if (__verif_rt_from_file(&v)) return (int)(__verif_rt_rec(v) & 1);
+  return (int)__verif_rt_rec(__verif_rt_yield_den ? (__verif_rt_next() % __verif_rt_yield_den) == 0 : 0);
 }
 #ifdef __cplusplus
 }
